@@ -152,6 +152,43 @@ def path_checks():
     return out
 
 
+def schema_string_check():
+    """'a schema string parses back the path layout it describes (word-like strings, integers, plain decimals, booleans)': export with a
+    format string naming every key, import with the matching typed schema string; directory and zip; also one key per type alone"""
+    import signac
+    out = []
+    sps = [{"i": i, "f": f, "s": st, "b": b} for (i, f, st, b) in ((1, 0.5, "ab", True), (10, 2.0, "c_d", False), (100, 2.5, "ab", False), (1, 2.0, "x1", False), (7, 10.25, "c_d", True))]
+    layouts = [("i/{i}/f/{f}/s/{s}/b/{b}", "i/{i:int}/f/{f:float}/s/{s}/b/{b:bool}", sps),
+               ("b_{b}/n_{i}", "b_{b:bool}/n_{i:int}", [{"b": b, "i": i} for b in (True, False) for i in (0, 3)]),
+               ("flag/{b}", "flag/{b:bool}", [{"b": True}, {"b": False}]),
+               ("x/{f}", "x/{f:float}", [{"f": 0.5}, {"f": 12.0}, {"f": 3.25}]),
+               ("k/{s}/v/{i}", "k/{s:str}/v/{i:int}", [{"s": "ab", "i": 1}, {"s": "ab", "i": 10}, {"s": "a_b", "i": 1}])]
+    for path, schema, universe in layouts:
+        for kind in ("dir", ".zip"):
+            with dir_scratch() as d:
+                os.makedirs(d + "/src")
+                os.makedirs(d + "/dst")
+                src, dst = signac.init_project(d + "/src"), signac.init_project(d + "/dst")
+                for sp in universe:
+                    j = src.open_job(sp).init()
+                    j.doc["v"] = sp
+                    open(j.fn("data.txt"), "w").write(json.dumps(sp))
+                before = tree(src)
+                target = d + "/export" + ("" if kind == "dir" else kind)
+                try:
+                    src.export_to(target, path=path)
+                    dst.import_from(target, schema=schema)
+                except Exception as e:
+                    out.append((f"{schema}:{kind}", f"export with path {path!r} then import with the schema {schema!r} ({kind}) raised {type(e).__name__}: {str(e)[:200]}"))
+                    continue
+                got = tree(dst)
+                if got != before or stray(dst):
+                    sp_got = sorted(json.dumps(j.statepoint(), sort_keys=True) for j in dst)
+                    out.append((f"{schema}:{kind}", f"export with path {path!r} then import with the schema {schema!r} ({kind}): state points after the round trip {sp_got[:4]}, "
+                                                      f"exported {sorted(json.dumps(sp, sort_keys=True) for sp in universe)[:4]}"))
+    return out
+
+
 def auto_path_collision_probe():
     """(repaired defect F18) with path=None nobody checked that the schema-based paths are unique (1 vs '1' both give a/1)"""
     import signac
@@ -228,7 +265,11 @@ def run(tier="quick", seed=0):
     evals += 1
     if z:
         failures.append({"key": "zip:string-prefix", "description": z, "script": ""})
+    for key, msg in schema_string_check()[:3]:
+        failures.append({"key": "schema-string:" + key, "description": msg,
+                         "script": script_header() + "sys.path.insert(0, '/verif')\nfrom pybound.c16 import schema_string_check\nr = schema_string_check()\nassert not r, r\n"})
+    evals += 10
     return {"scope": "11 state point universes chosen to collide textually (1/10/100, 1/1.0/'1', True/'True', prefix keys, nested, heterogeneous) x 6 target kinds x 8 path specs "
-                     "(None, False, format strings incl. {{auto}}, callables); colliding automatic paths must be refused up front or round-trip exactly; plus leaf/node order checks and the zip string-prefix probe",
+                     "(None, False, format strings incl. {{auto}}, callables); colliding automatic paths must be refused up front or round-trip exactly; plus leaf/node order checks, the zip string-prefix probe and typed schema strings (int, float, str, bool incl. False) parsing back the layout of a format-string export (directory and zip)",
             "evaluations": evals, "distinct_nontrivial": len(distinct), "rule": "a case is one export+import round trip; distinct by (universe, target kind, path spec, outcome class)",
             "samples": samples, "failures": failures}
